@@ -170,7 +170,10 @@ R.contract(MS + "SensitiveWordAnonymizer.anonymize", record=True,
                     # the line is returned as is, or rebuilt between its own leading and trailing whitespace (C12)
                     "result == line or (result[:len(_split_line(line)[0])] == _split_line(line)[0] and "
                     "result[len(result) - len(_split_line(line)[2]):] == _split_line(line)[2])"],
-           loops={"sub0": LoopContract([], heap_modifies=["self.sens_word_replacements"], invariant=["MemoOK(self)"])})
+           loops={"sub0": LoopContract([], heap_modifies=["self.sens_word_replacements"], invariant=["MemoOK(self)"],
+                                       # C10: each occurrence is replaced by the pseudonym determined by the salt and
+                                       # the matched text only
+                                       step_ensures=["REPL == WordRepl(self.salt, MATCH)"])})
 for _k in ("netconan.ip_anonymization:anonymize_ip_addr@v4", "netconan.ip_anonymization:anonymize_ip_addr@v6"):
     R.contracts[_k].record = True
 
@@ -343,7 +346,7 @@ FA_OK = ["implies(file_anonymizer.anonymizer4 is not None, WF(file_anonymizer.an
          "implies(file_anonymizer.anonymizer_as_num is not None, AsOK(file_anonymizer.anonymizer_as_num))",
          "implies(file_anonymizer.anonymizer_sensitive_word is not None, MemoOK(file_anonymizer.anonymizer_sensitive_word))"]
 
-R.contract(M + "anonymize_files@impl",
+R.contract(M + "anonymize_files@impl", 
            types={"input_path": STR, "output_path": STR, "anon_pwd": BOOL, "anon_ip": BOOL, "salt": Opt(STR),
                   "dumpfile": Opt(STR), "sensitive_words": Opt(LS), "undo_ip_anon": BOOL, "as_numbers": Opt(LS),
                   "reserved_words": Opt(LS), "preserve_prefixes": Opt(LS), "preserve_networks": Opt(LS),
@@ -372,3 +375,7 @@ R.contract(M + "anonymize_files@impl",
                                                  "file_anonymizer.anonymizer_sensitive_word.sens_word_replacements"],
                                   invariant=FA_OK + ["all(PairOK(p, input_path, output_path) for p in file_list)",
                                                      "FileIterationOK('in_path', 'out_path')"])})
+
+# the walk-loop step needs a chain of instances (nth of a concatenation -> soundness of the filtered comprehension ->
+# pair projections -> introduction rule of Mirror): more instantiation rounds than the default two
+R.contracts[M + "anonymize_files@impl"].inst_rounds = 5
